@@ -83,6 +83,7 @@ def families(rng):
                                                                                      ("and", ("pred", "before", [("var", "k1"), ("var", "k2")]), smt("(= k1 k2)", "k1", "k2"))))))
     out.append(("eps-mexpr", "eps", ("exists", "<r>", "x", "start", mex("<r>", ["<o>", "<k>", "<r>"], {0: "o", 1: "kk"}),
                                      ("and", smt('(= o "-")', "o"), smt('(= kk "p")', "kk")))))
+    out.append(("count-optional-needle", "optrec", ("forall", "<rec>", "r", "start", None, ("count", "r", "<field>", r.randint(1, 2)))))
     out.append(("lines-exists-eq", "lines", ("exists", "<line>", "l", "start", None, smt(f'(= l "{r.choice(["ab", "a", "b;a"])}")', "l"))))
     out.append(("lines-count", "lines", ("count", "start", "<line>", r.randint(1, 3))))
     out.append(("different", "expr", ("forall", "<d>", "x", "start", None, ("forall", "<d>", "y", "start", None,
